@@ -122,7 +122,7 @@ def check_C19(tier):
             prior = [e[0] for e in rec["ev"][:pos - 2]]
             chk.finding("C19:registry:%s:%s" % (v, "fresh" if not prior else "after-" + "+".join(sorted(set(prior)))),
                         "history of registry operations: %s at step %d" % (v, pos - 1), {"history": rec["ev"]})
-        elif len(chk.cov["samples"]) < 3 and rec["id"] % 503 == 11:
+        elif len(chk.cov["samples"]) < 3 and sum(1 for e in rec["ev"] if e[0] == "program") >= 2 and rec["id"] % 7 == 3:
             chk.sample({"history": rec["ev"]})
     chk.cov["rule"] = ("TLC explores every history of 2 registry operations (and simulated histories of 3) over import of a module, run-time definition of a command class in a module "
                        "outside every library (incl. one whose name has a requested library's name as string prefix), and Program construction for every single library and ordered pair among "
